@@ -223,7 +223,7 @@ def cold_ok_world(world):
     return world["policy"] == "ta" and bool(pmem) and all(n.get("normal") for n in pmem)
 
 
-def lifecycle_history(world, rnd, nops, disorder=0.0, reconf_cfgs=None, sync=True, fuzz=0.0, cold_bias=False, reconf_bias=False):
+def lifecycle_history(world, rnd, nops, disorder=0.0, reconf_cfgs=None, sync=True, fuzz=0.0, cold_bias=False, reconf_bias=False, stale_first=False):
     """A history over one world.  With disorder=0 the environment is a runtime consistent with its own bookkeeping
     (create before start, stop before remove, containers stopped before their pod); disorder>0 injects events for
     unknown ids, duplicates and out-of-order lifecycle events (C14)."""
@@ -250,6 +250,16 @@ def lifecycle_history(world, rnd, nops, disorder=0.0, reconf_cfgs=None, sync=Tru
         return [c for c, s in ctrs.items() if s in ("created", "running")]
 
     big = rnd.random() < 0.3
+    if stale_first and world["policy"] == "balloons":
+        # a container whose creation is refused (unknown balloon type) stays cached; later a configuration defines that type
+        t = copy.deepcopy(world["config"].get("balloonTypes") or [])
+        ops.append({"op": "RunPod", "pod": "ps", "pods": {"ns": "default", "qos": "Burstable", "ann": {ANN["balloon"]: "nosuchtype"}}})
+        ops.append({"op": "Create", "pod": "ps", "c": "cs", "ctr": {"cpureq": 500, "cpulim": 0, "memlim": 64, "memreq": 64}})
+        pods["ps"] = {"qos": "Burstable", "ctrs": [], "ann": {}}
+        stale_cfg = dict(world["config"], balloonTypes=t + [{"name": "nosuchtype", "minCPUs": 1, "maxCPUs": 2}])
+        stale_at = rnd.randint(4, max(5, nops // 2))
+    else:
+        stale_at = -1
     cold = []       # [requests to go, container]: cold start timers (dropped by the harness unless the policy armed one)
     while len(ops) < nops:
         k = rnd.random()
@@ -258,6 +268,9 @@ def lifecycle_history(world, rnd, nops, disorder=0.0, reconf_cfgs=None, sync=Tru
             if t[0] < 0:
                 cold.remove(t)
                 ops.append({"op": "ColdDone", "pod": pod_of.get(t[1], "px"), "c": t[1]})
+        if stale_at >= 0 and len(ops) >= stale_at:
+            ops.append({"op": "Reconfigure", "config": stale_cfg, "tag": "stale"})
+            stale_at = -1
         if disorder and rnd.random() < disorder:
             kind = rnd.choice(["StopPod", "RemovePod", "Create", "Start", "Update", "Stop", "Remove", "dupCreate", "earlyRemovePod"])
             if kind in ("StopPod", "RemovePod"):
